@@ -88,39 +88,3 @@ fn k_clone_cell() {
         && cell.angle.get_value().to_bits() == a0.to_bits());
     kani::cover!(true);
 }
-
-/// stand-in for Cell2::to_cartesian_translate inside the enumeration harness: records the integer offset in the
-/// translation column with no trigonometry, so the harness checks *which* (n, m) the iterator produces
-fn translate_stub(_cell: &Cell2, transform: Transform2, x: i64, y: i64) -> Transform2 {
-    transform.set_position(nalgebra::Point2::new(x as f64, y as f64))
-}
-
-/// K:k_images_enum_<k> — C14/C01/C03 (BOUNDED: shells = k per harness): periodic_images calls to_cartesian_translate
-/// exactly once for every (n, m) with |n|,|m| <= k, the pair (0,0) only when asked, and for nothing else
-fn images_enum(shells: i64) {
-    let cell = Cell2 { length: SharedValue::new(1.), ratio: SharedValue::new(1.), angle: SharedValue::new(1.), family: CrystalFamily::Monoclinic };
-    let zero: bool = kani::any();
-    let (n, m): (i64, i64) = (kani::any(), kani::any());
-    kani::assume(-4 <= n && n <= 4 && -4 <= m && m <= 4);
-    let mut count = 0;
-    let mut total = 0;
-    for img in cell.periodic_images(Transform2::identity(), shells, zero) {
-        let p = img.position();
-        if p.x == n as f64 && p.y == m as f64 { count += 1; }
-        total += 1;
-    }
-    let inside = -shells <= n && n <= shells && -shells <= m && m <= shells;
-    let expected = if inside && (zero || n != 0 || m != 0) { 1 } else { 0 };
-    assert!(count == expected);
-    assert!(total == (2 * shells + 1) * (2 * shells + 1) - if zero { 0 } else { 1 });
-    kani::cover!(n == shells && m == -shells);
-    kani::cover!(zero && n == 0 && m == 0);
-}
-#[kani::proof]
-#[kani::unwind(12)]
-#[kani::stub(Cell2::to_cartesian_translate, translate_stub)]
-fn k_images_enum_1() { images_enum(1); }
-#[kani::proof]
-#[kani::unwind(52)]
-#[kani::stub(Cell2::to_cartesian_translate, translate_stub)]
-fn k_images_enum_3() { images_enum(3); }
